@@ -70,8 +70,8 @@ var registry = []Harness{
 	{Prop: "C14", Pkg: "container", Func: "VerifC14Counter", Link: []string{"container"},
 		Bound: "kernel counterToBytes/counterFromBytes for every counter 1..32767 (two symbolic counters): two bytes, order preserving, round trip"},
 	{Prop: "C14", Pkg: "container", Func: "VerifC14Signatures", Link: []string{"nns", "netmap", "balance", "neofsid", "container"},
-		Quick: [][]int{{1, 2, 1}, {1, 3, 1}, {2, 2, 2}, {2, 2, 1}, {1, 2, 0}}, Thorough: [][]int{{1, 1, 1}, {1, 2, 1}, {1, 3, 1}, {2, 2, 2}, {2, 2, 1}, {1, 2, 0}, {2, 1, 2}},
-		Bound: "vector 0 = {m0,m1}, optional vector 1 = {m2}; REPs symbolic 0..4; per row up to 3 (resp. 2) signature tokens, each with symbolic signer (member 0..2 / outsider) and made for the message or for another one; rows handed in = param 2"},
+		Quick: [][]int{{1, 2, 1, 0}, {1, 3, 1, 0}, {2, 2, 2, 0}, {2, 2, 1, 0}, {1, 2, 0, 0}, {1, 2, 1, 1}, {1, 3, 1, 1}}, Thorough: [][]int{{1, 1, 1, 0}, {1, 2, 1, 0}, {1, 3, 1, 0}, {2, 2, 2, 0}, {2, 2, 1, 0}, {1, 2, 0, 0}, {2, 1, 2, 0}, {1, 2, 1, 1}, {1, 3, 1, 1}, {2, 2, 2, 1}},
+		Bound: "vector 0 = {m0,m1} (param 3 = 1: a second batch lists m0 again, one key at two roster positions), optional vector 1 = {m2}; REPs symbolic 0..4; per row up to 3 (resp. 2) signature tokens, each with symbolic signer (member 0..2 / outsider) and made for the message or for another one; rows handed in = param 2"},
 	{Prop: "C20", Pkg: "reputation", Func: "VerifC20Reputation", Link: []string{"reputation"},
 		Quick: [][]int{{1, 1, 1}, {2, 1, 1}, {0, 1, 1}, {1, 2, 2}, {2, 2, 1}, {1, 1, 0}, {3, 2, 1}, {1, 4, 4}}, Thorough: allTriples(5),
 		Bound: "two puts (epochs symbolic inside the encoding length classes given by params 0,1: 0 / 1..127 / 128..32767 / ..8388607 / ..2^31-1; 33-byte symbolic peers, 3-byte values), queries listByEpoch(q), get(q,peer1) with symbolic q of class param 2"},
@@ -143,17 +143,23 @@ var registry = []Harness{
 		Thorough: [][]int{{0, 1}, {1, 1}, {2, 1}, {3, 1}, {4, 1}, {5, 1}, {6, 1}, {7, 1}, {8, 1}, {9, 1}, {10, 1}, {0, 4}, {1, 4}, {2, 4}, {3, 4}, {5, 4}, {6, 4}, {7, 4}, {9, 4}, {10, 4}, {2, 7}, {6, 7}, {7, 7}},
 		Bound:    "contract #param0 of the 11 freshly deployed (post-deploy storage) as a release reporting a SYMBOLIC version v in Z, committee size param1, update with symbolic presence of the committee-majority, Alphabet and Inner-Ring-majority accounts; the replay builds the old release from a scratch copy of the tree with the version constant set to v"},
 	{Prop: "C05", Pkg: "container", Func: "VerifC05Fee", Link: []string{"nns", "netmap", "balance", "neofsid", "container"},
-		Quick:    [][]int{{1, 0, 0}, {4, 4, 0}, {7, 7, 0}, {1, 4, 1}, {4, 0, 1}, {4, 4, 2}},
-		Thorough: [][]int{{1, 0, 0}, {1, 4, 0}, {1, 7, 0}, {4, 0, 0}, {4, 4, 0}, {4, 7, 0}, {7, 0, 0}, {7, 4, 0}, {7, 7, 0}, {1, 0, 1}, {1, 4, 1}, {4, 0, 1}, {4, 7, 1}, {7, 4, 1}, {1, 0, 2}, {4, 4, 2}, {7, 7, 2}},
-		Bound:    "five linked contracts; committee size param0 in {1,4,7}; V2 blob with version-field length param1 in {0,4,7} and every other byte symbolic; fees (0 included), owner balance symbolic; symbolic Alphabet signature; param2: 1 = named container (alias fee, NNS registration), 2 = named with a domain registered in advance by the committee; then the fee is changed and a second container is put"},
+		Quick:    [][]int{{1, 0, 0}, {4, 4, 0}, {7, 7, 0}, {1, 4, 1}, {4, 0, 1}, {4, 4, 2}, {4, 0, 3}, {1, 0, 3}},
+		Thorough: [][]int{{1, 0, 0}, {1, 4, 0}, {1, 7, 0}, {4, 0, 0}, {4, 4, 0}, {4, 7, 0}, {7, 0, 0}, {7, 4, 0}, {7, 7, 0}, {1, 0, 1}, {1, 4, 1}, {4, 0, 1}, {4, 7, 1}, {7, 4, 1}, {1, 0, 2}, {4, 4, 2}, {7, 7, 2}, {1, 0, 3}, {4, 0, 3}, {7, 4, 3}},
+		Bound:    "five linked contracts; committee size param0 in {1,4,7}; V2 blob with version-field length param1 in {0,4,7} and every other byte symbolic; fees (0 included), owner balance symbolic; symbolic Alphabet signature; param2: 1 = named container (alias fee, NNS registration), 2 = named with a domain registered in advance by the committee, 3 = the owner is the first Alphabet node itself (one fee leg is a self-transfer); then the fee is changed and a second container is put"},
 	{Prop: "C04", Pkg: "container", Func: "VerifC04Registry", Link: []string{"nns", "netmap", "balance", "neofsid", "container"},
-		Quick:    [][]int{{2, 0, 0, 3}, {2, 4, 2, 3}, {2, 0, 0, 4}, {2, 7, 3, 0}, {2, 0, 2, 2}, {2, 4, 1, 3}, {2, 0, 4, 3}, {2, 0, 0, 0}, {2, 4, 0, 2}, {2, 0, 2, 0}, {2, 0, 3, 3}, {2, 0, 2, 4}, {3, 0, 0, 4, 3}, {3, 4, 0, 3, 0}, {3, 0, 1, 3, 1}, {3, 4, 2, 3, 2}},
+		Quick:    [][]int{{2, 0, 0, 3}, {2, 4, 2, 3}, {2, 0, 0, 4}, {2, 7, 3, 0}, {2, 0, 2, 2}, {2, 4, 1, 3}, {2, 0, 4, 3}, {2, 0, 0, 0}, {2, 4, 0, 2}, {2, 0, 2, 0}, {2, 0, 3, 3}, {2, 0, 2, 4}, {3, 0, 0, 4, 3}, {3, 4, 0, 3, 0}, {3, 0, 1, 3, 1}, {3, 4, 2, 3, 2}, {3, 100, 0, 4, 3}, {2, 100, 0, 3}},
 		Thorough: c04Thorough(),
-		Bound: "param0 consecutive symbolic operations (put, put with meta flag, putNamed with one shared name, delete, setEACL; symbolic target among two pool containers and a foreign id; symbolic Alphabet signature); blobs with version-field length param1 and all other bytes symbolic, second owner symbolic (same or other); after each operation get/owner/eACL/alias/count/list/containersOf and the NNS alias record are compared with a reference model; fees are zero (C05 covers them)"},
+		Bound: "param0 consecutive symbolic operations (put, put with meta flag, putNamed with one shared name, delete, setEACL; symbolic target among two pool containers and a foreign id; symbolic Alphabet signature); blobs with version-field length param1 (+100: blobs that END with the owner ID, 31 bytes for an empty version field) and all other bytes symbolic, second owner symbolic (same or other); after each operation get/owner/eACL/alias/count/list/containersOf and the NNS alias record are compared with a reference model; fees are zero (C05 covers them)"},
 	{Prop: "C10", Unwind: 300, Pkg: "nns", Func: "VerifC10Lifecycle", Link: []string{"nns"},
 		Quick:    [][]int{{0, 30, 0, 99, 99}, {0, 10, 99, 99, 99}, {0, 20, 99, 99, 99}, {0, 2, 30, 99, 99}, {0, 2, 32, 99, 99}, {0, 30, 20, 99, 99}},
 		Thorough: [][]int{{0, 30, 0, 99, 99}, {0, 10, 99, 99, 99}, {0, 20, 99, 99, 99}, {0, 2, 30, 99, 99}, {0, 2, 32, 99, 99}, {0, 10, 30, 0, 99}, {0, 30, 10, 99, 99}, {0, 20, 30, 20, 99}, {0, 1, 10, 30, 99}, {0, 30, 30, 0, 99}, {0, 2, 30, 2, 99}, {0, 2, 12, 32, 99}},
 		Bound:    "NNS with one TLD; pool names a.com, b.com, x.a.com, owners o1,o2; the step kinds and names are the params (register / transfer / renew / time passes), within a step the signer, receiver, lifetime 1..4*10^8 s, years 0..11 and the time span 1..3*10^6 ms are symbolic; after every step totalSupply, balanceOf, tokensOf, isAvailable and ownerOf of the name are compared with a reference model (block clock symbolic)"},
+	{Prop: "C10", Unwind: 300, Pkg: "nns", Func: "VerifC10ExpiredTLD", Link: []string{"nns"},
+		Bound: "TLD org registered by the committee with a symbolic lifetime 1..1000 s, a.org with a symbolic lifetime 1..2000 s and one record, a symbolic time span 1..2.1*10^6 ms: ownerOf, properties, getRecords, resolve, getAllRecords answer exactly while the name AND its TLD are unexpired (witness exactly at the TLD's expiration replayed)"},
+	{Prop: "C11", Unwind: 300, Pkg: "nns", Func: "VerifC10Lifecycle", Link: []string{"nns"},
+		Quick:    [][]int{{0, 30, 0, 99, 99}, {0, 10, 99, 99, 99}},
+		Thorough: [][]int{{0, 30, 0, 99, 99}, {0, 10, 99, 99, 99}, {0, 10, 30, 0, 99}},
+		Bound:    "the lifecycle harness of C10 for register - time passes - register again, and register - transfer: after every step balanceOf and tokensOf of both owners list exactly what the model records, so an account that lost a name holds nothing of it"},
 	{Prop: "C11", Pkg: "nns", Func: "VerifC11Authorisation", Link: []string{"nns"},
 		Quick: c11Params(false), Thorough: c11Params(true),
 		Bound: "history: a.com registered by o1, one record, admin a1 (variant 0) / then transferred to o2 (variant 1); ONE invocation of the method given by param1 (addRecord, setRecord, deleteRecords, updateSOA, renew, setAdmin, transfer, register 3rd level, register 2nd level, registerTLD, setPrice, register 4th level under a 3rd-level name of another owner) with a symbolic signer set over {o1,o2,o3,a1,new admin,committee}+stranger; committee size param2"},
@@ -165,6 +171,9 @@ var registry = []Harness{
 	{Prop: "C12", Pkg: "nns", Func: "VerifC12Resolve", Link: []string{"nns"}, Unwind: 100,
 		Quick: [][]int{{0, 0}, {1, 0}, {2, 0}, {4, 0}, {1, 1}}, Thorough: [][]int{{0, 0}, {1, 0}, {2, 0}, {3, 0}, {4, 0}, {0, 1}, {1, 1}, {2, 1}},
 		Bound: "five registered names with one symbolic TXT record each, a CNAME chain of param0 links (param1 = 1: closed into a cycle); resolve with and without trailing dot, for TXT and CNAME"},
+	{Prop: "C12", Pkg: "nns", Func: "VerifC12Conflict", Link: []string{"nns"}, Unwind: 100,
+		Quick: [][]int{{0}, {1}, {2}, {3}, {4}},
+		Bound: "a.com registered, one record with symbolic data added for a name that is not registered (param0: w.a.com itself / x.w.a.com / x.w.a.com.y.w.a.com / the sibling xw.a.com / x.b.a.com), then isAvailable and register of w.a.com: refused exactly when the record belongs to a sub-name of w.a.com"},
 	{Prop: "C12", Pkg: "nns", Func: "VerifC12ReRegister", Link: []string{"nns"}, Unwind: 100,
 		Bound: "a.com alive, b.a.com with a symbolic lifetime 1..1000 s, a symbolic time span 1..1.1*10^6 ms, optionally a record for x.b.a.com added by the owner of a.com, then b.a.com registered again: success exactly when isAvailable says so, never while alive, never while the enclosing name holds a record of a sub-name"},
 	{Prop: "C12", Pkg: "nns", Func: "VerifC12Expiry", Link: []string{"nns"},
@@ -193,9 +202,9 @@ var registry = []Harness{
 		Quick: [][]int{{0}, {1}},
 		Bound: "LEGACY NNS storage (< 0.18.0) preset raw in the layout of the recorded testnet dump: TLD 'com' as an ordinary token with a 20-byte owner, 'a.com' with a symbolic expiration, SOA records and one TXT record with 3 symbolic bytes, symbolic price >= 1; param0 = 1: the TLD's owner also owns a.com; symbolic version 0.15.4 <= v < 0.18.0; then a record is added and a sibling name registered"},
 	{Prop: "C16", Pkg: "netmap", Func: "VerifC16MigrateNetmap", Link: []string{"netmap", "probe1", "probe2"},
-		Quick:    [][]int{{0, 0}, {0, 1}, {0, 2}, {0, 3}, {0, 4}, {0, 5}, {1, 0}, {1, 2}, {1, 4}, {1, 5}, {2, 0}},
-		Thorough: [][]int{{0, 0}, {0, 1}, {0, 2}, {0, 3}, {0, 4}, {0, 5}, {1, 0}, {1, 1}, {1, 2}, {1, 3}, {1, 4}, {1, 5}, {2, 0}},
-		Bound:    "LEGACY Netmap storage preset raw (not producible by the current code): era param0 (0: v in [0.15.4,0.16.0) one-field snapshot nodes and {{BLOB},state} candidates; 1: [0.16,0.17); 2: [0.17,0.19)), notary flag param1 (absent / false / true without ballots / true with a stale ballot / true with a pending ballot / true with a ballot whose last vote is a symbolic 15..25 blocks before the update: refused iff <= 20, witnesses at exactly 20 and 21 replayed); symbolic version inside the era, epoch 1..1000, current snapshot id, two candidates with symbolic states 1..3, 3-byte-symbolic node blobs, one config value; the working tree's _deploy(data||v, true) runs on it; replay: a stand-in contract of the same manifest name receives the raw items and is updated to the real NEF"},
+		Quick:    [][]int{{0, 0}, {0, 1}, {0, 2}, {0, 3}, {0, 4}, {0, 5}, {0, 6}, {0, 7}, {1, 0}, {1, 2}, {1, 4}, {1, 5}, {1, 6}, {2, 0}},
+		Thorough: [][]int{{0, 0}, {0, 1}, {0, 2}, {0, 3}, {0, 4}, {0, 5}, {0, 6}, {0, 7}, {1, 0}, {1, 1}, {1, 2}, {1, 3}, {1, 4}, {1, 5}, {1, 6}, {1, 7}, {2, 0}},
+		Bound:    "LEGACY Netmap storage preset raw (not producible by the current code): era param0 (0: v in [0.15.4,0.16.0) one-field snapshot nodes and {{BLOB},state} candidates; 1: [0.16,0.17); 2: [0.17,0.19)), notary flag param1 (absent / false / true without ballots / true with a stale ballot / true with a pending ballot / true with a ballot whose last vote is a symbolic 15..25 blocks before the update: refused iff <= 20, witnesses at exactly 20 and 21 replayed / true with two ballots, a pending one before or after a stale one); symbolic version inside the era, epoch 1..1000, current snapshot id, two candidates with symbolic states 1..3, 3-byte-symbolic node blobs, one config value; the working tree's _deploy(data||v, true) runs on it; replay: a stand-in contract of the same manifest name receives the raw items and is updated to the real NEF"},
 }
 
 func c03Params(sizes []int) [][]int {
@@ -229,7 +238,7 @@ func c11Params(thorough bool) [][]int {
 }
 
 func c04Thorough() [][]int {
-	var out [][]int
+	out := [][]int{{3, 100, 0, 4, 3}, {2, 100, 0, 3}, {2, 104, 0, 3}, {2, 100, 2, 3}, {3, 100, 0, 3, 0}}
 	for a := 0; a < 5; a++ {
 		for b := 0; b < 5; b++ {
 			out = append(out, []int{2, (a + b) % 3 * 4 % 9, a, b}) // version-field lengths 0, 4, 8
